@@ -874,22 +874,24 @@ class C07(core.Check):
                  "(three fill loops of calculate_visible in closed form, lia), that the only two writers of the view state "
                  "establish that invariant and that any history preserves it; hand model tied by an exact extracted-model "
                  "correspondence on states and histories; ast scan of the write sites; slice oracle on real list boxes")
-    level_text = ("Proved in Coq, no size bounds (view_ok): for every list of flow widgets with heights >= 0 (zero-height included), "
+    level_text = ("Proved in Coq, no size bounds.  view_ok: for every list of flow widgets with heights >= 0 (zero-height included), "
                   "every focus, offset_rows >= 0, inset fraction 0 <= n < d, maxrow >= 1, focus flag and cursor row inside the "
-                  "focus widget, render of a list box with no focus request pending does not raise and shows the slice "
-                  "[p, p+maxrow) of the stacked item rows followed by blanks only; blanks only when p = 0; a focus item with >= 1 "
-                  "row has a row in the slice; the cursor row is in the slice at the canvas cursor.  Proved: shift_focus and "
+                  "focus widget, render does not raise and shows the slice [p, p+maxrow) of the stacked item rows followed by "
+                  "blanks only; blanks only when p = 0; a focus item with >= 1 row has a row in the slice; the cursor row is in "
+                  "the slice at the canvas cursor.  writers_establish_view_ok + history_keeps_view_ok: shift_focus and "
                   "change_focus (the only writers of offset_rows/inset_fraction - ast scan of all of urwid on every run) always "
-                  "leave such a state; any history of render / up / down / item keys / mouse press and wheel / set_focus / direct "
-                  "shift_focus, change_focus, make_cursor_visible calls / walker edits, interleaved with arbitrary un-modelled "
-                  "operations that leave such a state, keeps it (history_keeps_view_ok, render_after_any_history); a button-1 "
-                  "press on a row showing a selectable item focuses it (mouse_press_focuses).  REFUTED in model and code "
-                  "(render_with_stale_pending_refuted, KNOWN-FINDING): render raises when a set_focus request is pending and "
-                  "its old position was deleted.  NOT proved (render_any_history_full, stated): that completing a pending "
-                  "request ('first selectable', set_focus with a live old position) inside render never raises - "
-                  "correspondence and oracle only.  NOT modelled: page up/down, home/end, set_focus_valign (their resulting "
-                  "states are covered by view_ok through the writers argument; 'does not raise' for them is oracle only); "
-                  "widgets whose rows()/render()/cursor disagree; wrap-around walkers; maxrow = 0.")
+                  "leave such a state, and any history of render / up / down / item keys / mouse press and wheel / set_focus / "
+                  "direct shift_focus, change_focus, make_cursor_visible calls / walker edits, interleaved with arbitrary "
+                  "un-modelled operations that leave such a state, keeps it.  render_never_raises_any_history: after any such "
+                  "history render completes a pending 'first selectable' or set_focus request without raising and shows such a "
+                  "window, PROVIDED the positions named by the pending request still exist (PendOK; true for a fresh list box "
+                  "and after every set_focus, destroyed only by walker edits).  mouse_press_focuses: a button-1 press on a row "
+                  "showing a selectable item focuses it.  REFUTED in model and code (render_with_stale_pending_refuted, "
+                  "KNOWN-FINDING): without PendOK render raises (set_focus, then the old position is deleted, then render).  "
+                  "NOT modelled, hence correspondence/oracle only: page up/down, home/end, set_focus_valign ('does not raise' for "
+                  "them; the states they leave are covered by view_ok through the writers argument); exceptions raised by "
+                  "keypress itself are recorded, not judged; widgets whose rows()/render()/cursor disagree; wrap-around "
+                  "walkers; maxrow = 0.")
     level_note = ("Trusted: Coq kernel; the hand transcription Model/ListBoxView.v (validated by exact correspondence: 17 100 "
                   "directly written states + ~2000 random histories per quick run on three walker kinds); the ast scan "
                   "that finds every assignment to offset_rows/inset_fraction; ExtrOcamlBasic extraction + OCaml driver; the "
@@ -914,7 +916,7 @@ class C07(core.Check):
     assumptions = [
         "item widgets: rows() >= 0, rows() and render() agree, the cursor row reported lies inside the widget (hypotheses heights_ok / cursor_ok of view_ok)",
         "maxrow >= 1 (StateOK); positions are list indices, no wrap-around walker",
-        "view_ok is about a list box with no focus request pending; completion of pending requests is covered by correspondence + oracle (and refuted for stale requests)",
+        "a pending set_focus request names positions that still exist (PendOK) - violated exactly by the known finding C07-stale-pending-set-focus",
         "page up/down, home/end, set_focus_valign are not modelled: any state they leave is ViewOK because they write the view state only through shift_focus/change_focus (ast scan); exceptions raised by keypress itself are recorded, not flagged",
     ]
 
